@@ -11,7 +11,7 @@ from harness.props import xmicommon as xc
 ID = "C01"
 COQ_TARGETS = ["Lex.vo", "LexProofs.vo", "XmiDoc.vo", "Xmi.vo", "XmiProofs.vo", "ReachProofs.vo", "ReachSpec.vo", "XmiWf.vo", "XmiDocOk.vo", "XmiResave.vo",
                "XmiLoad.vo", "XmiLoadProofs.vo", "XmiLoadProofs2.vo", "XmiLoadProofs3.vo", "XmiRt.vo", "XmiRtProofs.vo", "XmiRtTotal.vo",
-               "XmiRtTotalProofs.vo", "CorrC04.vo", "CorrC01.vo", "XmiExample.vo", "Props/C01.vo"]
+               "XmiRtTotalProofs.vo", "XmiLoadCas.vo", "CorrC04.vo", "CorrC01.vo", "XmiExample.vo", "Props/C01.vo"]
 PROPS_FILE = "Props/C01.v"
 CORR_IMPORTS = "Base Heap Schema Canon XmiDoc Xmi CorrC01"
 OPEN_SCOPES = ["Z_scope"]
